@@ -371,7 +371,8 @@ def run(tier, seed, jobs):
                     # depth 4 where separate responses (own message IDs, timers) make longer histories matter, 3 elsewhere
                     d = 4 if (con and kind in ("slow", "slowfail", "slownon")) else 3
                 else:
-                    d = 6 if con else 5
+                    # the deepest histories away from the message-ID wrap; one level less around it (the wrap has its own jobs below)
+                    d = (6 if con else 5) if mid0 == 0x7000 else (5 if con else 4)
                 work.append((kind, con, mid0, d))
     # request message IDs around 0 (and the server's own counter wrapping onto them)
     for kind in ("fast", "supp", "slow") if tier == "quick" else KINDS:
